@@ -33,7 +33,7 @@ Definition kind_eqb (a b : kind) : bool :=
 
 Record batch := mkBatch {
   b_kind : kind;
-  b_sig : bytes;             (* GetHeaderSignature(): Header.String()[:87] *)
+  b_sig : bytes;             (* GetHeaderSignature(): first 87 characters of Header.String() *)
   b_num : Z;                 (* Header.BatchNumber *)
   b_entries : list entry;    (* GetEntries() / IATBatch.Entries *)
   b_adv : list entry         (* GetADVEntries(); always [] for IAT batches *)
